@@ -4,7 +4,7 @@ shared attributes and sum to the total; marginalisation is linear (averaged iter
 Correspondence: for every solver / iteration count / early exit the returned model's stored clique marginals, in-clique and
 out-of-clique answers and data vector are compared with the exact joint marginals the extracted model computes from the model's
 STORED PARAMETERS (exp of the potentials as exact rationals)."""
-import json, math
+import json, math, os
 from fractions import Fraction
 import numpy as np
 import common, pgmgen, infgen, c02
@@ -93,6 +93,18 @@ def main(chk):
     rng = chk.rng
     n = 150 if chk.tier == 'quick' else 900
     lines, pend = [], []
+    # corpus first: the recorded inputs of the known findings are re-run on every check
+    for f in chk.findings:
+        if f.get('corpus'):
+            c = json.load(open(os.path.join(common.VERIF, f['corpus'])))
+            zeros = {tuple(k): [tuple(x) for x in v] for k, v in c['structural_zeros'].items()}
+            ms = [(np.array(m['Q']), np.array(m['y']), m['sigma'], tuple(m['proj'])) for m in c['measurements']]
+            try:
+                with infgen.quiet(), np.errstate(all='ignore'):
+                    model = FactoredInference(Domain(c['attrs'], c['sizes']), iters=c['iters'], structural_zeros=zeros).estimate(ms, total=c['total'], engine=c['engine'])
+                check_model(chk, model, dict(c, corpus=f['id'], model_cliques=[list(cl) for cl in model.cliques]), rng, lines, pend)
+            except Exception as e:
+                chk.violation(dict(kind='exception', engine=c['engine'], what=common.exc_kind(e)), 'corpus case raised %s' % common.exc_kind(e), c, found_input=True)
     for it in range(n):
         prob = infgen.gen_problem(rng, allow_empty=True)
         engine = ['MD', 'RDA', 'IG'][it % 3]
